@@ -20,7 +20,9 @@ N = int(opt('--n', '40')); SEED = int(opt('--seed', '1'))
 FILES = opt('--files', 'include/boost/multi/detail/layout.hpp,include/boost/multi/array_ref.hpp,include/boost/multi/array.hpp').split(',')
 CHECKS = {'layout.hpp': ['C01', 'C02', 'C19', 'C05', 'C07', 'C03', 'C12', 'C18', 'C15'],
           'array_ref.hpp': ['C02', 'C05', 'C07', 'C01', 'C03', 'C19', 'C12', 'C16', 'C17', 'C04'],
-          'array.hpp': ['C04', 'C06', 'C08', 'C10', 'C09', 'C05', 'C19', 'C11', 'C17']}
+          'array.hpp': ['C04', 'C06', 'C08', 'C10', 'C09', 'C05', 'C19', 'C11', 'C17'],
+          'fftw.hpp': ['C15'], 'mpi.hpp': ['C18'], 'potrf.hpp': ['C14'], 'geqrf.hpp': ['C14'], 'gesvd.hpp': ['C14']}
+for _f in ('gemm', 'gemv', 'axpy', 'dot', 'herk', 'syrk', 'trsm', 'scal', 'copy', 'swap', 'nrm2', 'core', 'numeric', 'operations'): CHECKS[_f + '.hpp'] = ['C13']
 OPS = [(r' \+ 1\b', ' - 1'), (r' - 1\b', ' + 1'), (r' \+ ', ' - '), (r' - ', ' + '), (r' \* ', ' / '), (r' <= ', ' < '), (r' < ', ' <= '), (r' >= ', ' > '), (r' > ', ' >= '),
        (r' == ', ' != '), (r' != ', ' == '), (r' && ', ' || '), (r' \|\| ', ' && '), (r'\+\+', '--'), (r' \+= ', ' -= '), (r' -= ', ' += '),
        (r'(?<=[\w\)])\*(?=[\w\(])', '/'), (r'(?<=[\w\)])/(?=[\w\(])', '*'), (r'(?<=[\w\)])\+(?=[\w\(])', '-'), (r'(?<=[\w\)])-(?=[\w\(])', '+'), (r'(?<=[\w\)])%(?=[\w\(])', '/')]
